@@ -2,7 +2,8 @@
    Print Assumptions only. The pins in tools/pins/C02.v re-check the statements. *)
 From Coq Require Import List NArith Bool.
 From V.gen Require Consts.
-From V.C02 Require Import Model Proofs Tamper Duplex Buffer.
+From V.gen Require NoiseKinds.
+From V.C02 Require Import Model Proofs Tamper Duplex Buffer Kinds.
 Import ListNotations.
 Open Scope N_scope.
 
@@ -304,10 +305,24 @@ Theorem C02_connection :
 Proof. exact connection_bound. Qed.
 Print Assumptions C02_connection.
 
-(* The constants of the source tree (regenerated on every run) satisfy the side conditions. *)
+(* The error-kind tables (regenerated on every run): the table of io::ErrorKinds the harness's
+   carrier draws from is the one the model passes through unchanged, and the kinds the source's
+   poll_read / poll_write / poll_flush produce themselves are exactly the model's. *)
+Theorem C02_error_kinds :
+  (V.gen.NoiseKinds.noise_kind_codes = table_codes /\
+   forallb (fun k => ecode k =? k) V.gen.NoiseKinds.noise_kind_codes = true) /\
+  V.gen.NoiseKinds.noise_read_kinds = [E_EOF; E_INVALID; E_PERM] /\
+  V.gen.NoiseKinds.noise_write_kinds = [E_INVALID; E_WRITEZERO].
+Proof. exact (conj kinds_table (conj own_read_kinds own_write_kinds)). Qed.
+Print Assumptions C02_error_kinds.
+
+(* The constants of the source tree (regenerated on every run) satisfy the side conditions, and
+   so do the defaults of the two transport configurations. *)
 Theorem C02_constants :
   1 <= V.gen.Consts.MAX_FRAME_LEN /\ V.gen.Consts.MAX_FRAME_LEN + TAG <= SNOW_MAX /\
-  1 <= V.gen.Consts.MAX_READ_AHEAD_FACTOR /\ 1 <= V.gen.Consts.MAX_WRITE_BUFFER_SIZE.
+  1 <= V.gen.Consts.MAX_READ_AHEAD_FACTOR /\ 1 <= V.gen.Consts.MAX_WRITE_BUFFER_SIZE /\
+  1 <= V.gen.Consts.TCP_NOISE_READ_AHEAD_DEFAULT /\ 1 <= V.gen.Consts.TCP_NOISE_WRITE_BUFFER_DEFAULT /\
+  1 <= V.gen.Consts.WS_NOISE_READ_AHEAD_DEFAULT /\ 1 <= V.gen.Consts.WS_NOISE_WRITE_BUFFER_DEFAULT.
 Proof. exact consts_ok. Qed.
 Print Assumptions C02_constants.
 
